@@ -60,6 +60,8 @@ def evaluate(plan, ctx):
         raise Violation("test_indices", "simulator %r, independent split %r" % (list(sim.test_indices), te))
     arms = list(plan["arms"])
     ev = ["online" if plan["batch_size"] else "offline", "bandits=%d" % len(originals)]
+    if plan.get("scaler"):
+        ev.append("scaler=" + plan["scaler"])
     metrics = set()
     replaced = False
     for b, (name, ca), (_, cb) in zip(plan["bandits"], copies_a, copies_b):
